@@ -504,7 +504,7 @@ def r5_dispatch(ctx, chk, rule="C03.5"):
         return
     cond, _, call = calls[0]
     st = ("elem", L.id)
-    if call[1] != st or call[3] != (slist,):
+    if call[1] != st or not call[3] or call[3][0] != slist:       # further arguments (a tolerance ...) are judged where they are used (C03.2)
         chk.violation(rule, f.where(L.node), "prune_paths is called as `%s`" % show(call), expected="state.prune_paths(self.state_list)",
                       found=show(call), construct="Solver.prune_paths call")
         return
